@@ -232,6 +232,10 @@ class Gen:
             c = r.random()
             if sel and c < 0.4:
                 g = ["EQ", ["id", "m"], ["PLUS", ["id", sel[0][0]], ["int", self.K()]]]
+            elif c < 0.5 and [p for p in params if p["kind"] in ("int", "constint", "idT")]:
+                # a template parameter used in a label (it has to be visible in the template's frame)
+                pn = r.choice([p for p in params if p["kind"] in ("int", "constint", "idT")])["name"]
+                g = ["EQ", ["id", "m"], ["PLUS", ["id", pn], ["int", self.K()]]]
             elif c < 0.6:
                 g = ["GE", ["id", "m"], ["int", self.K()]]
             elif c < 0.8:
